@@ -41,6 +41,42 @@ func init() {
 		RequiredFired:  []string{"err", "err_before_Sync", "err_after_Sync", "err_after_CommitState", "err_before_CommitState", "err_before_WriteAt", "err_short_write", "err_before_Create", "err_before_Delete"},
 		QuickS:         50, ThoroughS: 900,
 	}
+	propSpecs["C09"] = &PropSpec{
+		ID: "C09",
+		Rule: "runs = 60% fault-free programs (appends with every padding residue and batch shape, rotation at segment sizes 64B-64KiB, head/tail/full truncations, reopens, quiesce points) and 40% crash/re-append histories of the C01 generator; at every quiescent point and after every Open each segment file named by committed metadata is decoded by the README-only decoder (CRC verified per batch), re-encoded by the README-only encoder and compared byte-for-byte up to its last commit; header vs file name vs metadata; 8-byte alignment; live entry payloads vs the model's encodings; sealed: index frame offsets == entry frame offsets and IndexStart == index payload offset; crash-free histories: commit frames exactly at acknowledged batch boundaries. " +
+			"Non-trivial = at least one sealed segment checked or a crash fired; distinct = distinct op-sequence/state-class signatures (fault-free) or crash signatures.",
+		Components:     compA + "; refformat: independent encoder/decoder written from README.md only (shares no code with package segment)",
+		Assumptions:    []string{"README ambiguity: the first batch's CRC includes the 32-byte file header (written in the same first write); golden directories pin the pinned tree's behaviour", "entry payload bytes are produced by the codec (C12's business) and treated as opaque"},
+		RequiredProbes: []string{"format_segments_checked", "format_sealed_checked", "format_batches_checked", "clean_reopens", "truncations"},
+		QuickS:         45, ThoroughS: 600,
+	}
+	propSpecs["C20"] = &PropSpec{
+		ID: "C20",
+		Rule: "each run = a fault-free program (appends incl. refused batches, head/tail/full/middle/no-op truncations weighted to ones that empty the log, hit an empty tail or repeat, GetLog, stable ops, reopens) executed with metrics.NewAtomicCollector(wal.MetricDefinitions) (panics on an undeclared name); at every quiescent point the counters must equal the model's totals: log_appends, log_entries_written, log_entry_bytes_written (encoded through the codec), log_entries_read (GetLog calls), stable_gets/sets, head/tail_truncations (entries the model removed), segment_rotations (metadata commits that seal the tail outside a caller's DeleteRange/StoreLogs). " +
+			"Non-trivial = an acknowledged append and a truncation or reopen; distinct = distinct op-sequence/state-class signatures.",
+		Components:     compA,
+		Assumptions:    []string{"the static 'every emitting call site' half is measured as reach (hook_points_passed / probes), not decided", "verifier metrics are covered by the C16-C18 checks"},
+		RequiredProbes: []string{"truncations", "clean_reopens"},
+		QuickS:         40, ThoroughS: 600,
+	}
+	propSpecs["C15"] = &PropSpec{
+		ID: "C15",
+		Rule: "each run = 2-7 batches of 1-3 entries where one entry per batch has a boundary size (0-24, 64KiB-40..64KiB+16, segment size +/- frame overhead, 100000, 1MiB, and - rarely, more often in the thorough tier - 64MiB-64..64MiB+32 payload bytes) at a random batch position, crossed with segment sizes 64B..4MiB and preallocation on/off; interleaved with clean reopens and power losses right after the acknowledgement. Oracle: an acknowledged entry reads back identical immediately, after reopen and after power loss; refusal is allowed, acknowledge-then-unreadable is not. " +
+			"Non-trivial = an entry >= 64KiB-40 or >= the segment size was acknowledged; distinct = distinct op-sequence/state-class signatures.",
+		Components:     compA,
+		Assumptions:    []string{"64 MiB cases are sampled rarely (memory/time); the quick tier may contain none - the probes say how many ran"},
+		RequiredProbes: []string{"append_ge_64KiB_acked", "append_larger_than_segment_acked"},
+		QuickS:         60, ThoroughS: 900,
+	}
+	propSpecs["C08"] = &PropSpec{
+		ID: "C08",
+		Rule: "each run = 6-36 operations mixing Set/SetUint64/Get (raft keys, binary keys, empty / nil / 1B-60KiB values, 1B-32KiB keys) with appends, truncations and clean reopens, plus 0-3 process crashes at seam calls inside Sets, appends, truncations and the background rotation; backend = the real metadb.BoltMetaDB (two buckets, one write txn per Set/CommitState) on a tmpfs directory behind the seam wrapper. Oracle: stable model after every Get and after every reopen/recovery (in-flight Set applied or not), log model untouched by stable ops and vice versa. " +
+			"Non-trivial = a crash fired or (acknowledged append and reopen); distinct = crash signatures / op-sequence signatures.",
+		Components:     "real: wal, segment, metadb.BoltMetaDB + bbolt (on tmpfs); stub: fs.FS -> simulated disk; power loss of bbolt's own file is not simulated (bbolt trusted)",
+		Assumptions:    []string{"bbolt's crash safety is trusted; only process crashes (between MetaStore calls) are injected for the metadata file"},
+		RequiredProbes: []string{"clean_reopens", "recoveries", "seam_SetStable", "seam_GetStable"},
+		QuickS:         45, ThoroughS: 600,
+	}
 	propSpecs["C05"] = &PropSpec{
 		ID: "C05",
 		Rule: "each run = a seeded program of 1-55 API calls (append incl. illegal batches, head/tail/all/middle/no-op DeleteRange, GetLog, stable ops, clean reopen, quiesce) over a swarm-drawn geometry " +
